@@ -38,6 +38,10 @@ type Spec struct {
 	// (-1: none of it): the signature cannot be loaded, and the application must fail - never complete with
 	// something else than the new build
 	SigCut int `json:"sig_cut,omitempty"`
+	// StopAt > 0: the application stops at its StopAt-th checkpoint and is resumed by a new patcher and bowl
+	// with the SAME safekeeper (closed by the first session on its way out), whose signature can be fetched
+	// only once: the once-only loading of the signature is what the second session lives on
+	StopAt int `json:"stop_at,omitempty"`
 }
 
 // apply the damages to a copy of the old tree's bytes (the model) and to disk
@@ -217,7 +221,12 @@ func check(s Spec) h.Result {
 			cl = append(cl, "signature:unreadable-(cut-short)")
 		}
 	}
-	err = h.ApplyFresh(patch, dd, out, &h.ApplyOpts{WrapPool: h.SafeKeeperWrap(sig), Peek: s.Peek, PeekIdx: s.PeekIdx})
+	wrap := h.SafeKeeperWrap(sig)
+	if s.StopAt > 0 {
+		wrap = h.SafeKeeperWrapOnce(sig)
+		cl = append(cl, "sessions:stop-and-resume-with-the-same-safekeeper,-signature-fetchable-once")
+	}
+	err = h.ApplyFresh(patch, dd, out, &h.ApplyOpts{WrapPool: wrap, Peek: s.Peek, PeekIdx: s.PeekIdx, StopAt: s.StopAt})
 	// second route: the same rsync series applied through wsync.Context.ApplyPatch (the channel entry point of
 	// wsync/algo.go) with the safekeeper as the pool; same verdicts, file by file
 	if m := viaApplyPatch(dp, dd, sig, s.Pair.New, damaged, len(sig) < len(sdf.Sig)); m != "" {
@@ -396,6 +405,9 @@ var prop = h.Prop[Spec]{
 			// EMPTY build; a safekeeper given that for a non-empty build indexes out of range. That is a
 			// signature of another build, which C09 does not quantify over - noted in DESIGN §11.)
 			s.SigCut = rapid.SampledFrom([]int{-1, 1, 4, 5}).Draw(t, "sig-cut")
+		}
+		if rapid.IntRange(0, 2).Draw(t, "stop-and-resume") == 0 {
+			s.StopAt = rapid.IntRange(1, 3).Draw(t, "stop-at")
 		}
 		if rapid.IntRange(0, 3).Draw(t, "used-safekeeper") == 0 {
 			s.Peek = rapid.SampledFrom([]int{1, h.BS + 1, 1 << 30}).Draw(t, "peek-bytes")
